@@ -191,6 +191,17 @@ def _run_ob(ob, name, tier, seed, t0):
         over = [d for _, d in details.get(cname, []) if isinstance(d, dict) and d.get('needs_cex')]
         if over and len(over) == len(details.get(cname, [])) and cname not in (cex.get('found') or {}):
             verdicts[cname] = 'unknown'
+    # a clause refuted symbolically on a path nobody could WITNESS (a narrow band, an equality) is undecided - unless the concrete twin of
+    # the same contract finds a failing input of the real code for that very clause, which is a violation with a replay
+    unw = [c for c, v in verdicts.items() if v == 'unknown'
+           and any(isinstance(d, dict) and 'unwitnessed_path' in d for _, d in details.get(c, []))]
+    if unw and not ob.opts.get('canary'):
+        cx = find_counterexamples(ob, res, unw, seed + 1, n=ob.opts.get('cex_samples', 300))
+        for cname, rec in (cx.get('found') or {}).items():
+            verdicts[cname] = 'failed'
+            if not isinstance(cex, dict) or not cex: cex = dict(found={}, tried=0)
+            cex.setdefault('found', {})[cname] = rec
+        failed = [c for c, v in verdicts.items() if v == 'failed']
     out['verdicts'] = verdicts
     out['cex'] = cex
     # engine gap: the model cannot express the (changed) code.  Fall back to the concrete twin of the same contract on the
